@@ -1583,7 +1583,7 @@ def _run(c, quick, counts, hits, broken):
             runs.append((pi, cfg, kind, val, scripts, nontrivial))
             for s in scripts:
                 script_features(s, hits.n)
-            if kind == 'ok' and scripts and len(scripts_seen) < (300 if quick else 3000) and scripts[-1] not in scripts_seen:
+            if kind == 'ok' and scripts and len(scripts_seen) < (220 if quick else 3000) and scripts[-1] not in scripts_seen:
                 scripts_seen[scripts[-1]] = (p, cfg)
     c.log('%d real compile+run: %.1fs' % (len(runs), time.time() - t0))
 
@@ -1663,7 +1663,8 @@ def _run(c, quick, counts, hits, broken):
             except Exception as ex:
                 tr = ('error', repr(ex))
         core_real.append((kind, val, scripts, tr))
-    blocksample = hits.blockof if len(hits.blockof) < 4000 else rng.sample(hits.blockof, 4000)
+    nblock = 1500 if quick else 4000
+    blocksample = hits.blockof if len(hits.blockof) < nblock else rng.sample(hits.blockof, nblock)
     block_reqs = [json.dumps(dict(blockof=[list(map(list, deps)) for deps, _ in blocksample]))] if blocksample else []
 
     # =============================================================== phase B: Lean (two drivers, concurrently)
@@ -1681,10 +1682,10 @@ def _run(c, quick, counts, hits, broken):
     t0 = time.time()
     box = {}
     def expr_job():
-        try: box['expr'] = model_parallel(c, spec_reqs + vopt_reqs, 'Expr', nproc=4)
+        try: box['expr'] = model_parallel(c, spec_reqs + vopt_reqs, 'Expr', nproc=5)
         except BaseException as ex: box['expr_err'] = ex
     def c02_job():
-        try: box['c02'] = model_parallel(c, script_reqs + flat_reqs + block_reqs + core_reqs + exec_reqs, 'C02', nproc=2)
+        try: box['c02'] = model_parallel(c, script_reqs + flat_reqs + block_reqs + core_reqs + exec_reqs, 'C02', nproc=3)
         except BaseException as ex: box['c02_err'] = ex
     th = [threading.Thread(target=expr_job), threading.Thread(target=c02_job)]
     for t in th: t.start()
